@@ -85,7 +85,7 @@ def safety_conditions(roots):
             cond = None
             if k == z3.Z3_OP_DIV:
                 cond = ("nonzero-denominator", ch[1] != 0)
-            elif k == z3.Z3_OP_UNINTERPRETED and nm == "sqrt":
+            elif k == z3.Z3_OP_UNINTERPRETED and nm == "usqrt":
                 cond = ("sqrt-arg-nonneg", ch[0] >= 0)
             elif k == z3.Z3_OP_UNINTERPRETED and nm == "rpow":
                 cond = ("pow-base-positive", ch[0] > 0)
